@@ -773,7 +773,7 @@ fn main() {
     // attempted when its estimate fits the budget, and replaces the group's
     // numbers only when it completes.
     let passes: Vec<(usize, u32, f64)> = if thorough {
-        vec![(1, 3, 0.0), (2, 2, 0.0), (1, 4, 6.0), (1, 5, 6.0), (2, 3, 14.0)]
+        vec![(1, 3, 0.0), (2, 2, 0.0), (1, 4, 6.0), (1, 5, 4.0), (1, 6, 3.0), (2, 3, 14.0), (1, 7, 3.0)]
     } else {
         vec![(1, 2, 0.0), (2, 2, 0.0)]
     };
